@@ -8,7 +8,7 @@ from . import build as vb
 SCHED = os.path.join(vb.NATIVE, 'sched')
 
 
-def build(name, repo_sources, harness_sources, extra_flags=(), repo=None):
+def build(name, repo_sources, harness_sources, extra_flags=(), repo=None, prelude_sources=()):
   """repo_sources: paths relative to the repo, compiled with -include vf_sched_prelude.h.
   harness_sources: absolute paths compiled normally (+ native/sched/vf_sched.cc)."""
   repo = repo or vb.REPO
@@ -16,7 +16,7 @@ def build(name, repo_sources, harness_sources, extra_flags=(), repo=None):
   base = [vb.CLANGXX, '-std=c++20', '-O1', '-g', '-fno-omit-frame-pointer', '-pthread', '-w'] + vb.COMMON_DEFS + list(extra_flags) + inc
   h = hashlib.sha256()
   h.update(vb.header_digest(repo).encode())
-  for f in [os.path.join(repo, s) for s in repo_sources] + list(harness_sources) + [
+  for f in [os.path.join(repo, s) for s in repo_sources] + list(harness_sources) + list(prelude_sources) + [
       os.path.join(SCHED, 'vf_sched.cc'), os.path.join(SCHED, 'vf_sched.h'), os.path.join(SCHED, 'vf_sched_prelude.h')]:
     h.update(open(f, 'rb').read())
   h.update(' '.join(base).replace(repo, '<REPO>').encode())
@@ -29,16 +29,16 @@ def build(name, repo_sources, harness_sources, extra_flags=(), repo=None):
   tmpd = exe + '.build%d' % os.getpid()
   os.makedirs(tmpd, exist_ok=True)
   try:
-    for i, s in enumerate(repo_sources):
+    for i, s in enumerate([os.path.join(repo, s) for s in repo_sources] + list(prelude_sources)):
       o = os.path.join(tmpd, 'r%d.o' % i)
-      p = subprocess.run(base + ['-include', os.path.join(SCHED, 'vf_sched_prelude.h'), '-c', os.path.join(repo, s), '-o', o],
+      p = subprocess.run(base + ['-I' + os.path.dirname(s), '-include', os.path.join(SCHED, 'vf_sched_prelude.h'), '-c', s, '-o', o],
                          capture_output=True, text=True)
       if p.returncode:
         raise vb.BuildError('sched build failed for %s:\n%s' % (s, p.stderr[-3000:]))
       objs.append(o)
     for i, s in enumerate(list(harness_sources) + [os.path.join(SCHED, 'vf_sched.cc')]):
       o = os.path.join(tmpd, 'h%d.o' % i)
-      p = subprocess.run(base + ['-c', s, '-o', o], capture_output=True, text=True)
+      p = subprocess.run(base + ['-I' + os.path.dirname(s), '-c', s, '-o', o], capture_output=True, text=True)
       if p.returncode:
         raise vb.BuildError('sched build failed for %s:\n%s' % (s, p.stderr[-3000:]))
       objs.append(o)
